@@ -30,6 +30,31 @@ ob("c07::is_valid_def", "C07", cls="modular", timeout=120, functions=["TwoFloat:
 ob("c07::try_from_tuple", "C07", cls="modular", timeout=120, functions=["TryFrom<(f64,f64)> for TwoFloat", "From<TwoFloat> for (f64,f64)", "From<&TwoFloat> for (f64,f64)"])
 ob("c07::try_from_array", "C07", cls="modular", timeout=120, functions=["TryFrom<[f64;2]> for TwoFloat", "From<TwoFloat> for [f64;2]", "From<&TwoFloat> for [f64;2]"])
 
+# ------------------------------------------------------------------ C01 (operator bodies, modular)
+_ADD = {"valid_add_tf_f64": "Add<&f64> for &TwoFloat", "valid_add_f64_tf": "Add<&TwoFloat> for &f64", "valid_sub_tf_f64": "Sub<&f64> for &TwoFloat",
+        "valid_sub_f64_tf": "Sub<&TwoFloat> for &f64", "valid_add_assign_f64": "AddAssign<&f64> for TwoFloat", "valid_sub_assign_f64": "SubAssign<&f64> for TwoFloat",
+        "valid_add_tf_tf": "Add<&TwoFloat> for &TwoFloat", "valid_sub_tf_tf": "Sub<&TwoFloat> for &TwoFloat", "valid_add_assign_tf": "AddAssign<&TwoFloat> for TwoFloat",
+        "valid_sub_assign_tf": "SubAssign<&TwoFloat> for TwoFloat"}
+for _n, _f in _ADD.items():
+    ob("c01::" + _n, "C01", timeout=900, functions=[_f])
+_MUL = {"valid_mul_tf_f64": "Mul<&f64> for &TwoFloat", "valid_mul_f64_tf": "Mul<&TwoFloat> for &f64", "valid_mul_assign_f64": "MulAssign<&f64> for TwoFloat",
+        "valid_mul_tf_tf": "Mul<&TwoFloat> for &TwoFloat", "valid_mul_assign_tf": "MulAssign<&TwoFloat> for TwoFloat", "valid_to_degrees": "TwoFloat::to_degrees",
+        "valid_to_radians": "TwoFloat::to_radians", "valid_div_tf_f64": "Div<&f64> for &TwoFloat", "valid_div_assign_f64": "DivAssign<&f64> for TwoFloat",
+        "valid_new_div": "TwoFloat::new_div"}
+for _n, _f in _MUL.items():
+    ob("c01::" + _n, "C01", timeout=900, functions=[_f])
+ob("c01::valid_neg", "C01", timeout=120, functions=["Neg for TwoFloat", "Neg for &TwoFloat"])
+
+# ------------------------------------------------------------------ C03
+_A4 = {"alg4_add_tf_f64": "Add<&f64> for &TwoFloat", "alg4_add_f64_tf": "Add<&TwoFloat> for &f64", "alg4_sub_tf_f64": "Sub<&f64> for &TwoFloat",
+       "alg4_sub_f64_tf": "Sub<&TwoFloat> for &f64", "alg4_add_assign_f64": "AddAssign<&f64> for TwoFloat", "alg4_sub_assign_f64": "SubAssign<&f64> for TwoFloat",
+       "alg6_add_tf_tf": "Add<&TwoFloat> for &TwoFloat", "alg6_sub_tf_tf": "Sub<&TwoFloat> for &TwoFloat", "alg6_add_assign_tf": "AddAssign<&TwoFloat> for TwoFloat",
+       "alg6_sub_assign_tf": "SubAssign<&TwoFloat> for TwoFloat"}
+for _n, _f in _A4.items():
+    ob("c03::" + _n, "C03", cls="miter", timeout=300, functions=[_f], backend="cbmc+cvc5")
+for _n in ("add_tf_tf", "sub_tf_tf", "add_tf_f64", "add_f64_tf", "sub_tf_f64", "sub_f64_tf", "add_assign", "sub_assign"):
+    ob("c03::zero_sum_" + _n, "C03", timeout=600, functions=["Add/Sub/AddAssign/SubAssign bodies (zero-sum clause)"])
+
 # ------------------------------------------------------------------ C02 (leaves; also carry C01, C03)
 def _nm(d):
     return ("m%d" % -d) if d < 0 else ("p%d" % d)
@@ -65,6 +90,28 @@ ob("c06::signum_invalid", "C06", timeout=240, functions=["TwoFloat::signum"])
 ob("c06::lemma_sign", "C06", cls="lemma", timeout=300)
 for _c in ("p0", "p1", "p2", "p3", "n0", "n1", "n2", "n3"):
     ob("c06::lemma_bracket_" + _c, "C06", tier="thorough", cls="lemma", timeout=5400)
+
+# ------------------------------------------------------------------ C08
+_R = {"floor_exact": "TwoFloat::floor", "ceil_exact": "TwoFloat::ceil", "trunc_exact": "TwoFloat::trunc", "round_exact_int_hi": "TwoFloat::round",
+      "round_exact_frac_hi": "TwoFloat::round", "fract_exact_int_hi": "TwoFloat::fract", "fract_exact_frac_hi": "TwoFloat::fract"}
+for _n, _f in _R.items():
+    ob("c08::" + _n, ["C08", "C01"], timeout=1500, functions=[_f])
+ob("c08::lemma_libm", "C08", cls="lemma", timeout=300, functions=["libm::floor", "libm::ceil", "libm::trunc", "libm::round", "libm::modf"])
+for _n in ("floor", "ceil", "trunc", "round", "fract"):
+    ob("c08::lemma_%s_pair" % _n, "C08", tier="thorough", cls="lemma", timeout=7200)
+
+# ------------------------------------------------------------------ C09
+for _t in ("i8", "i16", "i32", "u8", "u16", "u32", "i64", "u64", "i128", "u128"):
+    ob("c09::from_" + _t, ["C09", "C01"], cls="leaf", timeout=900, functions=["From<%s> for TwoFloat" % _t])
+    _big = _t in ("i64", "u64", "i128", "u128")
+    ob("c09::try_" + _t, "C09", tier="thorough" if _big else "quick", timeout=3600 if _big else 900, functions=["TryFrom<TwoFloat> for " + _t, "TryFrom<&TwoFloat> for " + _t])
+    ob("c09::nonfinite_" + _t, "C09", timeout=300, functions=["TryFrom<TwoFloat> for " + _t])
+    if _t not in ("i128", "u128"):
+        ob("c09::roundtrip_" + _t, "C09", timeout=300, functions=["From<%s> for TwoFloat" % _t, "TryFrom<TwoFloat> for " + _t])
+ob("c09::float_conversions", "C09", cls="leaf", timeout=120, functions=["From<TwoFloat> for f64", "From<TwoFloat> for f32", "From<f32> for TwoFloat"])
+ob("c09::to_primitive_routes", "C09", cls="miter", timeout=900, functions=["ToPrimitive for TwoFloat"])
+ob("c09::from_primitive_routes", "C09", cls="miter", timeout=300, functions=["FromPrimitive for TwoFloat"])
+ob("c09::numcast_i64_exact", "C09", timeout=600, functions=["NumCast for TwoFloat"])
 
 COMMON_ASSUMPTIONS = [
     "Kani/CBMC bit-precise model of IEEE-754 binary64 (+,-,*,/,fma,casts,comparisons) equals the target's; one NaN (payload/sign of NaN not modelled)",
